@@ -4,7 +4,8 @@ from vlib import lib
 
 MODULES = ['nl.bsn', 'nl.onderwijsnummer', 'pl.nip', 'pl.regon', 'pt.nif', 'dk.cvr', 'fi.alv', 'no.orgnr', 'es.dni', 'ee.kmkr', 'mt.vat',
            'lu.tva', 'gr.vat', 'hu.anum', 'be.vat', 'si.ddv', 'at.uid', 'br.cpf', 'tr.tckimlik', 'ch.uid', 'it.iva', 'se.orgnr', 'fr.siren',
-           'ca.sin', 'il.idnr', 'co.nit']
+           'ca.sin', 'il.idnr', 'co.nit', 'de.vat', 'hr.oib', 'ro.cui', 'ru.inn', 'us.rtn', 'au.abn', 'au.acn', 'au.tfn', 'jp.cn',
+           'no.fodselsnummer', 'fi.hetu', 'ch.ssn', 'lv.pvn', 'pl.pesel']
 
 
 def worker(unit, emit):
